@@ -719,7 +719,9 @@ fn read_code<C: CodeVisitor>(
 
 					let (offset_delta, frame_data) = read_stack_map_frame(reader, pool, &mut labels)?;
 
-					offset += offset_delta + (if i == 0 { 0 } else { 1 });
+					offset = offset_delta.checked_add(if i == 0 { 0 } else { 1 })
+						.and_then(|delta| delta.checked_add(offset))
+						.with_context(|| anyhow!("stack map frame {i} is at a bytecode offset larger than {}", u16::MAX))?;
 
 					let label = labels.get_or_create(offset)?;
 
